@@ -148,4 +148,19 @@ pub fn durability_monitor(w: &World, op_kind: &str, outcome: &str, vios: &mut Ve
             what: format!("after {} ({}) live state and state restored from the store differ (live -> restored): {}", op_kind, outcome, d),
         });
     }
+    // the composite persister: the backup store alone must carry the same state
+    if w.backup.is_some() {
+        match crate::ev::catch(|| w.clone_restored_from_backup().map(|r| durable_view(&r.snapshot_live()))) {
+            Ok(Some(from_backup)) =>
+                if let Some(d) = json_diff(&live, &from_backup) {
+                    vios.push(Vio {
+                        prop: "C11",
+                        key: format!("C11:{}:backup-store:{}", op_kind, path_class(&d, 5)),
+                        what: format!("after {} ({}) live state and state restored from the backup store alone differ (live -> restored): {}", op_kind, outcome, d),
+                    });
+                },
+            Ok(None) => {}
+            Err(p) => vios.push(Vio { prop: "C11", key: format!("C11:restore-panics:backup-store:{}", op_kind), what: format!("restoring from the backup store after {} ({}) panicked: {}", op_kind, outcome, p) }),
+        }
+    }
 }
